@@ -146,6 +146,32 @@ def record_legacy(doc, desc):
     return [ev]
 
 
+# namespace names the XML world knows by heart, under prefixes it does not expect - and the prefixes it expects bound to
+# something else: a prefix means what the document declares, nothing more (only `xml` is reserved)
+WELL_KNOWN_URIS = ["http://www.w3.org/2001/XMLSchema-instance", "http://www.w3.org/2001/XMLSchema", "https://eml.ecoinformatics.org/eml-2.2.0",
+                   "eml://ecoinformatics.org/eml-2.1.1", "http://www.xml-cml.org/schema/stmml-1.2", "http://www.w3.org/1999/xhtml", "http://www.w3.org/1999/XSL/Transform",
+                   "http://purl.org/dc/terms/", "urn:other"]
+CONVENTIONAL = ["xsi", "xs", "eml", "stmml", "xhtml", "xsl", "dc", "s", "p"]
+
+
+def w_wellknown(idx):
+    evs = []
+    for i in idx:
+        uri = WELL_KNOWN_URIS[i // len(CONVENTIONAL) % len(WELL_KNOWN_URIS)]
+        pfx = CONVENTIONAL[i % len(CONVENTIONAL)]
+        other = CONVENTIONAL[(i + 3) % len(CONVENTIONAL)]
+        m, clean, collapse = MODES[i % len(MODES)]
+        shape = i // (len(CONVENTIONAL) * len(WELL_KNOWN_URIS))
+        if shape == 0:      # declared on the root, used by an attribute of the root and by a nested element and attribute
+            doc = (f'<d:doc xmlns:d="urn:doc" xmlns:{pfx}="{uri}" {pfx}:schemaLocation="a b" {pfx}:type="t"><x {pfx}:nil="true">t</x>'
+                   f'<{pfx}:inner {pfx}:lang="en" xml:lang="de">u</{pfx}:inner></d:doc>')
+        else:               # declared on an inner element only, and re-declared below it under another prefix
+            doc = (f'<doc><part xmlns:{pfx}="{uri}" {pfx}:type="t"><q xmlns:{other}="{uri}" {other}:ref="r" {pfx}:ref2="r2">t</q>'
+                   f'<r xmlns:{pfx}="urn:rebound" {pfx}:type="t2"/></part><after/></doc>')
+        evs += record_import(doc, m, clean, collapse, (), {"kind": "well-known", "uri": uri, "prefix": pfx, "shape": shape, "clean": clean, "collapse": collapse, "lits": []})
+    return evs
+
+
 def w_seeded(seeds):
     evs = []
     for seed in seeds:
@@ -171,6 +197,7 @@ def run(rep, tier, seed):
     evs = [e for chunk in parallel(w_exhaustive, strings) for e in chunk]
     nx = 500 if tier == "quick" else 15000
     evs += [e for chunk in parallel(w_seeded, [seed * 2750159 + i for i in range(nx)]) for e in chunk]
+    evs += [e for chunk in parallel(w_wellknown, range(2 * len(CONVENTIONAL) * len(WELL_KNOWN_URIS))) for e in chunk]
     judged = [e for e in evs if e["op"] != "failed"]
     legacy_info = []
     for e in evs:
